@@ -1,5 +1,6 @@
 From GV Require Import Common.Outcome Base.Grammar Base.Analyses Base.AnalysesProofs C17.Model C17.Spec C17.Proofs.
 
+From GV Require Import Common.Outcome Base.Grammar Base.Analyses C17.MirrorModel C17.MirrorSpec C17.MirrorProofs.
 Theorem C17_nullable_exact : nullable_ref_exact_stmt.
 Proof. exact nullable_ref_exact. Qed.
 Print Assumptions C17_nullable_exact.
@@ -67,3 +68,41 @@ Print Assumptions C17_min_iter_diverges_refuted.
 Theorem C17_mc_run_spec : mc_run_spec_stmt.
 Proof. exact mc_run_spec. Qed.
 Print Assumptions C17_mc_run_spec.
+
+(* the implementation's own FIRST/FOLLOW algorithms (mirrors of YaccFirsts::new / YaccFollows::new) are exact and terminate *)
+
+Theorem C17_firsts_mirror_exact : firsts_mirror_exact_stmt.
+Proof. exact firsts_mirror_exact. Qed.
+Print Assumptions C17_firsts_mirror_exact.
+
+Theorem C17_firsts_mirror_terminates : firsts_mirror_terminates_stmt.
+Proof. exact firsts_mirror_terminates. Qed.
+Print Assumptions C17_firsts_mirror_terminates.
+
+Theorem C17_follows_mirror_exact : follows_mirror_exact_stmt.
+Proof. exact follows_mirror_exact. Qed.
+Print Assumptions C17_follows_mirror_exact.
+
+Theorem C17_follows_mirror_strict : follows_mirror_strict_stmt.
+Proof. exact follows_mirror_strict. Qed.
+Print Assumptions C17_follows_mirror_strict.
+
+Theorem C17_follows_mirror_strict_refuted : follows_mirror_strict_refuted_stmt.
+Proof. exact follows_mirror_strict_refuted. Qed.
+Print Assumptions C17_follows_mirror_strict_refuted.
+
+Theorem C17_follows_mirror_terminates : follows_mirror_terminates_stmt.
+Proof. exact follows_mirror_terminates. Qed.
+Print Assumptions C17_follows_mirror_terminates.
+
+Theorem C17_ff_mirror_total_exact : ff_mirror_total_exact_stmt.
+Proof. exact ff_mirror_total_exact. Qed.
+Print Assumptions C17_ff_mirror_total_exact.
+
+Theorem C17_follows_mirror_orig_refuted : follows_mirror_orig_refuted_stmt.
+Proof. exact follows_mirror_orig_refuted. Qed.
+Print Assumptions C17_follows_mirror_orig_refuted.
+
+Theorem C17_follows_mirror_orig_sound : follows_mirror_orig_sound_stmt.
+Proof. exact follows_mirror_orig_sound. Qed.
+Print Assumptions C17_follows_mirror_orig_sound.
